@@ -66,9 +66,62 @@ def excerpt(log: str, n: int = 40) -> str:
     return "\n".join((lines or log.splitlines())[-n:])
 
 
+def collect_obligations(prop: str):
+    """the property's own generated regions / theorems / contracts merged with those of the properties it is DOWNSTREAM of (module attribute
+    UPSTREAM = [ids], transitively): a statement about an analysis-level quantity (a transfer function, a residual, a leakage level) is a theorem
+    about the CODE only through the chain  kernels = reference estimator (C01)  ->  pipeline = reference estimator on its own plan (C05)  ->  this
+    property's corollaries; an edit that breaks a link upstream leaves the property no longer shown to hold for the code, so the upstream equality
+    theorems are obligations of the downstream check as well (wave-5 misses C12e, C15e: edits in core.py / _lpsd_core that the downstream checks
+    did not depend on)."""
+    regions: List[str] = []
+    theorems: Dict[str, List[str]] = {}
+    contracts: List[str] = []
+    via: Dict[str, str] = {}
+    seen: List[str] = []
+
+    def visit(pid: str, origin: str):
+        if pid in seen:
+            return
+        seen.append(pid)
+        m = importlib.import_module(f"vk.props.{pid}")
+        for r in getattr(m, "GEN_REGIONS", []):
+            if r not in regions:
+                regions.append(r)
+        for mname, ths in m.THEOREMS.items():
+            lst = theorems.setdefault(mname, [])
+            for t in ths:
+                if t not in lst:
+                    lst.append(t)
+                    if pid != prop:
+                        via[t] = pid
+        for c in getattr(m, "CONTRACTS", []):
+            if c not in contracts:
+                contracts.append(c)
+        for up in getattr(m, "UPSTREAM", []):
+            visit(up, pid)
+
+    visit(prop, prop)
+    return regions, theorems, contracts, via, [p for p in seen if p != prop]
+
+
+class _Merged:
+    """view of a property module with the merged (own + upstream) obligations; everything else is the module's own"""
+
+    def __init__(self, mod, regions, theorems, contracts):
+        self._mod = mod
+        self.GEN_REGIONS = regions
+        self.THEOREMS = theorems
+        self.CONTRACTS = contracts
+
+    def __getattr__(self, name):
+        return getattr(self._mod, name)
+
+
 def run_check(prop: str, tier: str, seed: int, replay_path: str = "") -> int:
     t0 = time.time()
-    mod = importlib.import_module(f"vk.props.{prop}")
+    own = importlib.import_module(f"vk.props.{prop}")
+    regions, theorems_all, contracts, via, upstream = collect_obligations(prop)
+    mod = _Merged(own, regions, theorems_all, contracts)
     broken: List[Dict[str, Any]] = []
     cov: Dict[str, Any] = {}
 
@@ -77,6 +130,7 @@ def run_check(prop: str, tier: str, seed: int, replay_path: str = "") -> int:
         rep = T.regenerate(C.REPO)
     except Exception as ex:  # translator crash = every region broken
         rep = {r: [f"translator crashed: {ex!r}"] for r in getattr(mod, "GEN_REGIONS", [])}
+    cov["upstream"] = upstream
     cov["translator"] = {"regions": getattr(mod, "GEN_REGIONS", []),
                          "errors": {r: rep.get(r, []) for r in getattr(mod, "GEN_REGIONS", [])},
                          "source_sha": {f: T.sha_of(os.path.join(C.REPO, "speckit", f)) for f in
@@ -105,21 +159,32 @@ def run_check(prop: str, tier: str, seed: int, replay_path: str = "") -> int:
                                       "sources for this property's regions are identical to the current ones")
             ok_drv = True
     ok_props, out_props = C.lake_build(modules) if modules else (True, "")
+    built_ok = list(modules)
     if not ok_props:
-        broken.append({"kind": "build", "target": modules, "log": excerpt(out_props)})
+        # which theorem modules no longer build? (the others are still audited and counted)
+        built_ok, failed = [], []
+        for m in modules:
+            okm, outm = C.lake_build([m])
+            (built_ok if okm else failed).append(m)
+            if not okm:
+                broken.append({"kind": "build", "target": [m], "log": excerpt(outm, 12),
+                               **({"upstream_of": sorted({via[t] for t in mod.THEOREMS[m] if t in via})} if any(t in via for t in mod.THEOREMS[m]) else {})})
+        if not failed:
+            broken.append({"kind": "build", "target": modules, "log": excerpt(out_props)})
 
     # 3. audit
     obligations = sum(len(v) for v in mod.THEOREMS.values())
     discharged = 0
     theorems = []
-    if ok_props:
-        ax, out_ax = C.audit_axioms(mod.THEOREMS, prop)
-        for m, ths in mod.THEOREMS.items():
+    if built_ok:
+        audited = {m: ths for m, ths in mod.THEOREMS.items() if m in built_ok}
+        ax, out_ax = C.audit_axioms(audited, prop)
+        for m, ths in audited.items():
             for t in ths:
                 a = ax.get(t)
                 good = a is not None and set(a) <= C.ALLOWED_AXIOMS
                 discharged += 1 if good else 0
-                theorems.append({"name": t, "module": m, "axioms": a})
+                theorems.append({"name": t, "module": m, "axioms": a, **({"upstream_of": via[t]} if t in via else {})})
                 if not good:
                     broken.append({"kind": "audit", "theorem": t, "axioms": a})
     scan = C.lean_source_scan()
